@@ -78,6 +78,9 @@ def _load_dry_config_file(orchestrator: "Orchestrator", config_file: str, verbos
     with config_path.open("r", encoding="utf-8") as f:
         config: dict[str, Any] = yaml.safe_load(f) or {}
 
+    if isinstance(config.get("ignore"), list):
+        orchestrator.config["ignore"] = config["ignore"]  # top-level ignore list applies to dry too
+
     try:
         dry_config = config["dry"]
     except KeyError:
